@@ -160,6 +160,13 @@ def arith(it, opn, a, b, node):
         u = Unk(call("repeat_list", to_term(a), to_term(b)))
         u.repeated = (a.items[0], b)
         return u
+    if opn == "mul" and isinstance(a, Seq) and a.kind == "list" and len(a.items) == 1 and not is_pyconst(b) and isinstance(b, Val) \
+            and (getattr(b, "shape_of", None) is not None and getattr(b, "axis", 0) == 0 or b.term.op == "call" and b.term.args[0] in ("nrows", "len")) \
+            and (isinstance(a.items[0], (Val, Unk)) or is_pyconst(a.items[0])):
+        # [x] * len(table): one x per row of the table -- a column in which every row holds x
+        r_ = Val(to_term(a.items[0]), space=getattr(getattr(b, "shape_of", None), "space", None), series=True)
+        r_.repeated_scalar = True
+        return r_
     if opn == "mod" and is_pyconst(a) and isinstance(pyval(a), str):
         return Unk(call("strformat", to_term(a), to_term(b)))
     fa = a if isinstance(a, Frame) else None
